@@ -1,5 +1,8 @@
 """C16 - batch queries cover exactly their scheduled, bounded time range (spec/BatchSchedule)."""
+import concurrent.futures
 import os
+import re
+import time
 
 import verifylib as V
 
@@ -18,8 +21,129 @@ NEG = [  # negative controls: the model expresses each repaired defect and the p
 ]
 
 
+_RE_DRIFT = re.compile(r'"IMPL-DRIFT", (\d+), "([^"]+)"')
+
+
+# The tlc wrapper sets no heap limit, so each JVM may grow to a quarter of the RAM; cap it
+# (the JVM reads JAVA_TOOL_OPTIONS itself).  Model checking gets more than a trace-validation part.
+HEAP_MODEL = "-Xmx4g"
+HEAP_TRACE = "-Xmx2g"
+
+
+def validate(sc, files, cfg="BatchScheduleTrace.cfg", parallel=8, timeout=1800):
+    """V.validate_traces plus collection of the IMPL-DRIFT reports (Strict = "report": the code-shaped
+    model disagrees with an observation that the verdict level accepts; never a verdict)."""
+    parts = []
+    for f in files:
+        parts += V.split_trace(f, parallel, sc)
+    rej, kf, drift, states = [], set(), [], 0
+
+    def one(fp):
+        return fp, V.run_tlc(sc, "BatchSchedule", "BatchScheduleTraceMC.tla", cfg, workers=1, timeout=timeout,
+                             env_extra={"TRACE_FILE": fp, "JAVA_TOOL_OPTIONS": HEAP_TRACE})
+
+    t = time.time()
+    with concurrent.futures.ThreadPoolExecutor(max_workers=parallel) as ex:
+        for fp, res in ex.map(one, parts):
+            states += res["distinct"]
+            kf.update(res["kf"])
+            lines = None
+            for ln, what in _RE_DRIFT.findall(res["out"]):
+                if lines is None:
+                    lines = open(fp).read().splitlines()
+                if len(drift) < 5:
+                    drift.append("%s: %s" % (what, lines[int(ln) - 1][:240]))
+            if res["rejected_at"] is not None:
+                rej.append((fp, res["rejected_at"], res))
+            elif res["violated"]:
+                rej.append((fp, None, res))
+            elif "Postcondition" in res["out"] and "is false" in res["out"]:
+                rej.append((fp, None, res))
+    V.log("trace validation %s: %d file(s), %d spec states, %d rejection(s), %d drift report(s), %.1fs" %
+          (cfg, len(parts), states, len(rej), len(drift), time.time() - t))
+    return {"accepted": not rej, "rejections": rej, "kf": kf, "states": states, "drift": drift}
+
+
+def _traces(lines):
+    cur = []
+    for ln in lines:
+        if ln.startswith('{"ev":"Reset"') and cur:
+            yield cur
+            cur = []
+        cur.append(ln)
+    if cur:
+        yield cur
+
+
+def binding_self_test(sc, trace_file):
+    """Corrupt one recorded field in an otherwise accepted trace: TLC must reject it (and accept
+    the untouched copy).  Proves on every run that the validation compares results, not just shapes."""
+    import json
+    import re
+    lines = open(trace_file).read().splitlines()
+    qtr = ttr = None
+    for tr in _traces(lines):
+        if qtr is None and '"kind":"q"' in tr[0] and any('"which":"c"' in ln for ln in tr) and " OR " in tr[0]:
+            qtr = tr
+        if ttr is None and '"kind":"task"' in tr[0]:
+            for i, ln in enumerate(tr):
+                if ln.startswith('{"err":"","ev":"HistRet"') and len(json.loads(ln)["qs"]) >= 2:
+                    ttr = tr[:i + 1]
+                    break
+        if qtr and ttr:
+            break
+    if not (qtr and ttr):
+        raise V.Broken("binding self-test: no suitable trace recorded")
+    d = sc.sub("selftest")
+    cases = {}
+
+    def put(name, tr):
+        fp = os.path.join(d, name + ".ndjson")
+        open(fp, "w").write("\n".join(tr) + "\n")
+        cases[name] = fp
+
+    put("good_q", qtr)
+    put("good_task", ttr)
+    # (a) the upper bound inside the statement the clone prints: 37 -> 38
+    bad = list(qtr)
+    k = max(i for i, ln in enumerate(bad) if '"which":"c"' in ln)
+    m = json.loads(bad[k])
+
+    def bump(t):
+        if t.get("k") == "tm" and t["op"] == "lt" and t["v"] == m["e"]:
+            t["v"] += 1
+            return True
+        return any(bump(t[c]) for c in ("r", "l", "e") if c in t)
+    assert bump(m["obs"]["out"])
+    bad[k] = json.dumps(m, separators=(",", ":"))
+    put("bad_q_bound", bad)
+    # (b) the statement's top-level AND (user condition AND time range) turned into OR
+    bad = list(qtr)
+    k = min(i for i, ln in enumerate(bad) if '"ev":"SetTimes"' in ln)
+    m = json.loads(bad[k])
+    assert m["obs"]["out"]["k"] == "and"
+    m["obs"]["out"]["k"] = "or"
+    bad[k] = json.dumps(m, separators=(",", ":"))
+    put("bad_q_or", bad)
+    # (c) the second historical query starts one unit late
+    bad = list(ttr)
+    m = json.loads(bad[-1])
+    m["qs"][1]["gs"] += 1
+    bad[-1] = json.dumps(m, separators=(",", ":"))
+    put("bad_task_start", bad)
+    v = validate(sc, list(cases.values()), parallel=len(cases))
+    bad_fps = {fp for fp, _, _ in v["rejections"]}
+    res = {name: ("rejected" if fp in bad_fps else "accepted") for name, fp in cases.items()}
+    for name, r in res.items():
+        want = "accepted" if name.startswith("good") else "rejected"
+        if r != want:
+            raise V.Broken("binding self-test: %s was %s, expected %s" % (name, r, want))
+    return res
+
+
 def run(sc, tier, seed):
     R = V.Result("C16", tier, seed)
+    os.environ["JAVA_TOOL_OPTIONS"] = HEAP_MODEL
     V.build_harness("c16")
     # design level: splice/print/parse/clone over all condition trees, schedules over all phases, DBRPs
     cfg = "BatchSchedule_quick.cfg" if tier == "quick" else "BatchSchedule_thorough.cfg"
@@ -33,25 +157,22 @@ def run(sc, tier, seed):
     # B1: real NewQuery/Clone/SetStartTime/String, BatchQueries, StartBatching and the real tickers
     out, meta = V.run_driver(sc, "c16", tier, seed)
     R.add_meta(meta)
-    val = V.validate_traces(sc, "BatchSchedule", "BatchScheduleTraceMC.tla", "BatchScheduleTrace.cfg", meta["trace_files"])
+    # verdict level (rejections) and drift level (IMPL-DRIFT reports, never a verdict) in one pass
+    val = validate(sc, meta["trace_files"])
     R.states += val["states"]
     R.handle_validation(val)
-    extra = {"negative_controls": neg}
-    # drift level: the same traces against the code-shaped model (never a verdict)
+    extra = {"negative_controls": neg, "impl_drift": val["drift"]}
+    if val["drift"]:
+        V.log("impl drift (not a verdict): the code-shaped model no longer predicts some observations, e.g. " + val["drift"][0])
     if val["accepted"]:
-        d = V.validate_traces(sc, "BatchSchedule", "BatchScheduleTraceMC.tla", "BatchScheduleDrift.cfg", meta["trace_files"])
-        R.states += d["states"]
-        extra["impl_drift"] = [
-            "line %s: %s" % (ln, (V.segment_of(fp, ln)[0] or ["?"])[-1][:300]) for fp, ln, _ in d["rejections"][:5]]
-        if d["rejections"]:
-            V.log("impl drift (not a verdict): the code-shaped model no longer predicts %d trace part(s)" % len(d["rejections"]))
+        extra["binding_self_test"] = binding_self_test(sc, meta["trace_files"][0])
     return R.finish("model_checking", ASSUME, extra)
 
 
 def replay(sc, path):
     path = os.path.abspath(path)
     seg = os.path.join(path, "segment.ndjson")
-    val = V.validate_traces(sc, "BatchSchedule", "BatchScheduleTraceMC.tla", "BatchScheduleTrace.cfg", [seg])
+    val = validate(sc, [seg], parallel=1)
     if val["accepted"]:
         print("replay: segment is accepted by the current specification")
         return 0
